@@ -105,7 +105,8 @@ func longScenarios(c *core.Ctx, hidx int, planLen, ntx int, reps int) []stopScn 
 }
 
 var c05PacketKinds = []string{"fin", "rst", "err", "eof", "zerolen", "badseq", "short0", "cut", "inject-rowsquery", "inject-intvar", "inject-rand", "inject-invalid", "cancel-master",
-	"inject-baddecode-before", "inject-baddecode-after", "inject-baddecode-write", "inject-baddecode-delete"}
+	"inject-baddecode-before", "inject-baddecode-after", "inject-baddecode-write", "inject-baddecode-delete",
+	"inject-hdronly-tablemap", "inject-hdronly-rows", "inject-hdronly-query", "inject-hdronly-fde", "inject-hdronly-rotate", "inject-hdronly-nocrc-rotate"}
 
 // stopScenarios enumerates stop cause x stop point x pacing x handler speed.
 func stopScenarios(c *core.Ctx, hidx int, planLen, ntx int, reps int) []stopScn {
